@@ -123,6 +123,10 @@ def canon(tr):
             out.append(["TRADE", fr(e["cal"]), fr(t), osnap(e["order"]), fr(e["accounts"])])
         elif kind in ("UNIVERSE_ORDER", "OWN_INSTRUMENT", "SCHEDULED", "QUERY"):
             out.append([kind, fr(e)])
+        elif kind == "BEFORE_TRADING_CB":
+            out.append([kind, fr(e["cal"]), fr(e["last"])])
+        elif kind == "AFTER_TRADING_CB":
+            out.append([kind, fr(e["cal"]), [(rid(i), st) for i, st in e["open"]], [(rid(i), st) for i, st in e["live"]]])
         elif "order" in e and kind.startswith("ORDER_"):
             out.append([kind, fr(e["cal"]), osnap(e["order"]), e.get("reason"), e.get("book"), fr(e["accounts"]), [rid(i) for i in e["open"]]])
         else:
